@@ -484,11 +484,14 @@ def eval_stream(c, gen_sub, independent=True, budget_ms=3000, gen_extra=(), judg
                         {"kind": "input" if not group_start else "history", "input": text, "history": hist,
                          "impl": I[i], "model": M[i], "expected": E[i] if E else None}, found=True)
         if M[i].startswith("unsupported") or I[i].split(" ")[0] in ("panic", "abort", "timeout"):
-            # from here on the model's `ans` may differ from the implementation's
-            tainted = True
+            # only a Number reply is stored as `ans`: when the model could not follow a line that the
+            # implementation answered with a number (or that killed the worker), the model's `ans` may
+            # differ from the implementation's from here on
+            if I[i].split(" ")[0] in ("number", "panic", "abort", "timeout"):
+                tainted = True
             skipped += 1
             continue
-        if ans_taint and tainted and group_start and re.search(r"ans|_", text, re.I):
+        if tainted and group_start and re.search(r"ans|_", text, re.I):
             skipped += 1
             continue
         validated += 1
